@@ -88,6 +88,23 @@ Fixpoint j_smul_pos (k : positive) (P : jpoint) : jpoint :=
 Definition j_smul (k : Z) (P : jpoint) : jpoint :=
   match k with Zpos k' => j_smul_pos k' P | _ => j_inf end.
 
+Fixpoint bits_lsb (n : nat) (k : Z) : list bool :=
+  match n with O => [] | S n' => Z.odd k :: bits_lsb n' (Z.shiftr k 1) end.
+Definition bits256 (k : Z) : list bool := rev (bits_lsb 256 k).
+
+(* [a]P + [b]Q for 0 <= a, b < 2^256 by simultaneous double-and-add *)
+Definition j_double_smul (a : Z) (P : jpoint) (b : Z) (Q : jpoint) : jpoint :=
+  let PQ := j_add P Q in
+  fold_left (fun acc (bb : bool * bool) =>
+               let acc2 := j_double acc in
+               match bb with
+               | (true, true) => j_add acc2 PQ
+               | (true, false) => j_add acc2 P
+               | (false, true) => j_add acc2 Q
+               | (false, false) => acc2
+               end)
+            (combine (bits256 a) (bits256 b)) j_inf.
+
 (* affine coordinates of a finite point *)
 Definition j_affine (P : jpoint) : option (Z * Z) :=
   if j_is_inf P then None else
@@ -147,7 +164,7 @@ Definition ecdsa_verify (pk msg sig : list byte) : bool :=
     let si := sc_inv s in
     let u1 := sc_mul m si in
     let u2 := sc_mul r si in
-    let R := j_add (j_smul u1 secp_G) (j_smul u2 (j_of_affine qx qy)) in
+    let R := j_double_smul u1 secp_G u2 (j_of_affine qx qy) in
     match j_affine R with
     | None => false
     | Some (x, _) => x mod secp_n =? r
@@ -167,7 +184,7 @@ Definition ecdsa_recover_point (msg : list byte) (r s : Z) (recid : N) : option 
     let ri := sc_inv r in
     let u1 := sc_neg (sc_mul m ri) in
     let u2 := sc_mul s ri in
-    j_affine (j_add (j_smul u1 secp_G) (j_smul u2 (j_of_affine rx ry)))
+    j_affine (j_double_smul u1 secp_G u2 (j_of_affine rx ry))
   end.
 
 (* ---- gossamer lib/crypto/secp256k1 *)
